@@ -54,10 +54,12 @@ class Applied:
         subprocess.run(["git", "-C", "/repo", "checkout", "--", "."], check=True)
 
 
-def cmd_import(src):
+def cmd_import(src, offset=0):
     for d in sorted(glob.glob(os.path.join(src, "C*", "out", "*"))):
         prop = d.split(os.sep)[-3]
         k = os.path.basename(d)
+        if offset and k.isdigit():
+            k = str(int(k) + offset)
         if not os.path.exists(os.path.join(d, "patch.diff")):
             continue
         dst = os.path.join(SEEDED, f"{prop}-{k}")
@@ -157,9 +159,10 @@ def main():
     ap.add_argument("--props", default="")
     ap.add_argument("--runs", type=int, default=0)
     ap.add_argument("--tier", default="quick")
+    ap.add_argument("--offset", type=int, default=0, help="import: add to the change number (second round of changes)")
     a = ap.parse_args()
     if a.cmd == "import":
-        return cmd_import(a.ids[0])
+        return cmd_import(a.ids[0], a.offset)
     ids = ids_from(a.ids)
     if a.cmd == "confirm":
         return 1 if cmd_confirm(ids) else 0
